@@ -252,7 +252,7 @@ func (b *builder) filtersFor(key string, dataLen int) []FilterStage {
 	r := b.entRand("filter:" + key)
 	kind := b.lay.Filter
 	if kind == "mixed" {
-		kind = []string{"none", "Fl", "AHx", "A85", "FlPNG", "A85Fl", "AHxFl", "chain3"}[r.Intn(8)]
+		kind = []string{"none", "Fl", "AHx", "A85", "FlPNG", "A85Fl", "AHxFl", "chain3", "AHxFlPNG", "A85FlPNG"}[r.Intn(10)]
 	}
 	ab := func() bool { return r.Intn(3) == 0 }
 	pm := func() string { return []string{"", "", "null", "dict"}[r.Intn(4)] }
@@ -266,7 +266,7 @@ func (b *builder) filtersFor(key string, dataLen int) []FilterStage {
 		return []FilterStage{{Kind: "AHx", Abbrev: ab(), Parms: pm()}}
 	case "A85":
 		return []FilterStage{{Kind: "A85", Abbrev: ab(), Parms: pm()}}
-	case "FlPNG":
+	case "FlPNG", "AHxFlPNG", "A85FlPNG":
 		cols := 1
 		var divs []int
 		for c := 1; c <= 64 && c <= dataLen; c++ {
@@ -277,7 +277,14 @@ func (b *builder) filtersFor(key string, dataLen int) []FilterStage {
 		if len(divs) > 0 {
 			cols = divs[r.Intn(len(divs))]
 		}
-		return []FilterStage{{Kind: "Fl", Abbrev: ab(), Pred: []int{10, 11, 12, 13, 14, 15}[r.Intn(6)], Cols: cols}}
+		fl := FilterStage{Kind: "Fl", Abbrev: ab(), Pred: []int{10, 11, 12, 13, 14, 15}[r.Intn(6)], Cols: cols}
+		switch kind {
+		case "AHxFlPNG": // /DecodeParms [null <<predictor>>]: the dictionary belongs to the second filter
+			return []FilterStage{{Kind: "AHx", Abbrev: ab()}, fl}
+		case "A85FlPNG":
+			return []FilterStage{{Kind: "A85", Abbrev: ab()}, fl}
+		}
+		return []FilterStage{fl}
 	case "A85Fl":
 		return []FilterStage{{Kind: "A85", Abbrev: ab()}, {Kind: "Fl", Abbrev: ab(), Parms: pm()}}
 	case "AHxFl":
